@@ -524,7 +524,8 @@ Definition retopo (s : mstate) (t' : topo) : mstate := MS t' (need_refresh (m_at
 Definition dup_switch (s : mstate) : mstate :=
   MS (m_topo s) (map (fun a => Imattr (a_name a) (a_flags a) (a_conv a) false (a_tgs a)) (m_attrs s)).
 
-(* XML export (hwloc__xml_export_memattrs) followed by import into a fresh
+(* XML export (hwloc__xml_export_memattrs, which first calls
+   hwloc_internal_memattrs_refresh on the exported topology: fix 16e3604) followed by import into a fresh
    topology (hwloc__xml_import_memattr, hwloc__xml_import_memattr_value) and the
    end of hwloc_topology_load (need_refresh + refresh); [t'] is the re-imported
    topology. *)
@@ -554,7 +555,7 @@ Definition xml_import_attr (s : mstate) (e : N * imattr) : mstate :=
 
 Definition xml_switch (s : mstate) (t' : topo) : mstate :=
   let s0 := MS t' init_attrs in
-  let s1 := fold_left xml_import_attr (number_from 0 (m_attrs s)) s0 in
+  let s1 := fold_left xml_import_attr (number_from 0 (refresh_all (m_topo s) (m_attrs s))) s0 in
   MS t' (refresh_all t' (need_refresh (m_attrs s1))).
 
 (* sentinels for the driver *)
